@@ -163,6 +163,27 @@ def shapes():
     return progs
 
 
+def downgrade():
+    """C19 / C07 / C09: the broker's Maximum QoS x the requested QoS x the auto-downgrade setting, with payloads
+    that begin with zero bytes or are empty (whatever is misplaced reads as an identifier 0 or a length 0)."""
+    progs = []
+    for dg in (True, False):
+        for mq in (0, 1, 2):
+            steps, n = [], 0
+            for q in (0, 1, 2):
+                for payload in ([], [0, 0, 7], b("plain")):
+                    for props in ([], [prop(0x26, {"s": b("k"), "t": b("v")})]):
+                        n += 1
+                        steps.append({"e": "publish", "qos": q, "topic": b("d/%d" % n), "payload": payload, "props": props})
+                        steps += POLLS
+            steps.append({"e": "subscribe", "props": [], "filters": [{"topic": b("d/#"), "qos": 2}]})
+            steps += POLLS
+            progs.append({"cfg": {"rx": 128, "tx": 512, "ka": 0, "sei": 0, "client_id": b("dg%d%d" % (dg, mq)), "downgrade": dg,
+                                  "name": "downgrade-%d-%d" % (dg, mq)},
+                          "steps": steps, "connack": [{"id": 0x24, "n": mq, "s": [], "t": []}] if mq < 2 else []})
+    return progs
+
+
 def maxima():
     progs = []
     for mp in (2, 3, 4, 5, 6, 7, 8, 10, 12, 16, 20, 24, 32, 48, 64):
@@ -247,7 +268,7 @@ def inbound():
     return progs
 
 
-GROUPS = {"legality": legality, "shapes": shapes, "maxima": maxima, "inbound": inbound}
+GROUPS = {"legality": legality, "shapes": shapes, "maxima": maxima, "inbound": inbound, "downgrade": downgrade}
 
 if __name__ == "__main__":
     import sys
